@@ -837,12 +837,115 @@ package validate
 //@   requires[C06] implies(typeis(recv, "*numberValidator"), knumeric(data))
 //@   requires[C06] implies(typeis(recv, "*schemaSliceValidator"), isJSON(data) && (data == nil || kind(data) == 23))
 //@   requires[C06] implies(typeis(recv, "*objectValidator"), isJSON(data))
+//@   requires[C06] implies(typeis(recv, "*basicSliceValidator"), data != nil && kind(data) == 23)
 //@   requires[C06,C04] implies(typeis(recv, "*schemaPropsValidator"), jsonOrNum(data) && data != nil && readyProps(unbox(recv, "*schemaPropsValidator")))
 //@   requires[C06,C04] implies(typeis(recv, "*SchemaValidator"), isJSON(data) && (unbox(recv, "*SchemaValidator") == nil || readySV(unbox(recv, "*SchemaValidator"))))
 //@   ensures[C04,C11] ptrof(recv) == nil || redeemed(ptrof(recv)) == old(recyc(recv))
 //@   ensures[C04] result == nil || okResult(result)
 //@   ensures[C06] implies(!typeis(recv, "*stringValidator") && !typeis(recv, "*basicCommonValidator") && !typeis(recv, "*basicSliceValidator"), result != nil)
 //@   on_panic ensures[C11] ptrof(recv) == nil || redeemed(ptrof(recv)) == old(recyc(recv))
+
+
+// ---------------------------------------------------------------------------
+// Simple-schema validators (items / header / parameter): six typed slots, same protocol as SchemaValidator.
+// Their slot loops leave through `break`, so they are unrolled with the invariant cut but without dropping facts.
+//@ pred slotsIV(i *itemsValidator) = typeis(i.validators[0], "*typeValidator") && ptrof(i.validators[0]) != nil && typeis(i.validators[1], "*stringValidator") && ptrof(i.validators[1]) != nil && typeis(i.validators[2], "*formatValidator") && ptrof(i.validators[2]) != nil && typeis(i.validators[3], "*numberValidator") && ptrof(i.validators[3]) != nil && typeis(i.validators[4], "*basicSliceValidator") && ptrof(i.validators[4]) != nil && typeis(i.validators[5], "*basicCommonValidator") && ptrof(i.validators[5]) != nil
+//@ pred slotsLiveIV(i *itemsValidator) = !redeemed(ptrof(i.validators[0])) && !redeemed(ptrof(i.validators[1])) && !redeemed(ptrof(i.validators[2])) && !redeemed(ptrof(i.validators[3])) && !redeemed(ptrof(i.validators[4])) && !redeemed(ptrof(i.validators[5]))
+//@ pred slotsNilOrLiveIV(i *itemsValidator) = (isnil(i.validators[0]) || (typeis(i.validators[0], "*typeValidator") && ptrof(i.validators[0]) != nil && !redeemed(ptrof(i.validators[0])))) && (isnil(i.validators[1]) || (typeis(i.validators[1], "*stringValidator") && ptrof(i.validators[1]) != nil && !redeemed(ptrof(i.validators[1])))) && (isnil(i.validators[2]) || (typeis(i.validators[2], "*formatValidator") && ptrof(i.validators[2]) != nil && !redeemed(ptrof(i.validators[2])))) && (isnil(i.validators[3]) || (typeis(i.validators[3], "*numberValidator") && ptrof(i.validators[3]) != nil && !redeemed(ptrof(i.validators[3])))) && (isnil(i.validators[4]) || (typeis(i.validators[4], "*basicSliceValidator") && ptrof(i.validators[4]) != nil && !redeemed(ptrof(i.validators[4])))) && (isnil(i.validators[5]) || (typeis(i.validators[5], "*basicCommonValidator") && ptrof(i.validators[5]) != nil && !redeemed(ptrof(i.validators[5]))))
+//@ foldable readyIV(i *itemsValidator) = slotsIV(i) && slotsLiveIV(i)
+//@ func newItemsValidator
+//@   effects validation
+//@   assume_result result == nil || forallp(q, implies(desc(q, result), fromPool(q)))
+//@   requires[C06] items != nil
+//@   ensures[C04,C06] result != nil && !redeemed(result) && fromPool(result) && result.Options != nil
+//@   ensures[C04,C06] readyIV(result)
+//@   ensures[C04] implies(opts != nil, result.Options == opts)
+//@ func (*itemsValidator).redeemChildren
+//@   effects validation
+//@   requires[C04,C11] slotsNilOrLiveIV(i)
+//@   ensures[C04,C11] !redeemed(i)
+//@   ensures[C04] isnil(i.validators[0]) && isnil(i.validators[1]) && isnil(i.validators[2]) && isnil(i.validators[3]) && isnil(i.validators[4]) && isnil(i.validators[5])
+//@ func (*itemsValidator).Validate
+//@   effects validation
+//@   maypanic
+//@   requires[C06] data != nil
+//@   requires[C06,C04] readyIV(i)
+//@   ensures[C04,C11] redeemed(i) == old(i.Options.recycleValidators)
+//@   ensures[C04,C06] result != nil && okResult(result)
+//@   ensures[C08] implies(!old(i.Options.recycleValidators), unchanged(all(i)))
+//@   on_panic ensures[C11] redeemed(i) == old(i.Options.recycleValidators)
+//@   loop 1 unroll
+//@   loop 1 invariant liveRes(result) && !redeemed(i) && i.Options == old(i.Options) && i.items == old(i.items) && i.root == old(i.root) && i.path == old(i.path) && i.in == old(i.in) && i.KnownFormats == old(i.KnownFormats)
+//@   loop 1 invariant forall(k, 0, 6, implies(k > idx1, i.validators[k] == old(i.validators[k]) && !redeemed(ptrof(old(i.validators[k])))))
+//@   loop 1 invariant forall(k, 0, 6, implies(k <= idx1, ite(old(i.Options.recycleValidators), isnil(i.validators[k]), i.validators[k] == old(i.validators[k]))))
+//@   loop 1 invariant implies(!old(i.Options.recycleValidators), unchanged(all(i)))
+//@ pred slotsHV(p *HeaderValidator) = typeis(p.validators[0], "*typeValidator") && ptrof(p.validators[0]) != nil && typeis(p.validators[1], "*stringValidator") && ptrof(p.validators[1]) != nil && typeis(p.validators[2], "*formatValidator") && ptrof(p.validators[2]) != nil && typeis(p.validators[3], "*numberValidator") && ptrof(p.validators[3]) != nil && typeis(p.validators[4], "*basicSliceValidator") && ptrof(p.validators[4]) != nil && typeis(p.validators[5], "*basicCommonValidator") && ptrof(p.validators[5]) != nil
+//@ pred slotsLiveHV(p *HeaderValidator) = !redeemed(ptrof(p.validators[0])) && !redeemed(ptrof(p.validators[1])) && !redeemed(ptrof(p.validators[2])) && !redeemed(ptrof(p.validators[3])) && !redeemed(ptrof(p.validators[4])) && !redeemed(ptrof(p.validators[5]))
+//@ pred slotsNilOrLiveHV(p *HeaderValidator) = (isnil(p.validators[0]) || (typeis(p.validators[0], "*typeValidator") && ptrof(p.validators[0]) != nil && !redeemed(ptrof(p.validators[0])))) && (isnil(p.validators[1]) || (typeis(p.validators[1], "*stringValidator") && ptrof(p.validators[1]) != nil && !redeemed(ptrof(p.validators[1])))) && (isnil(p.validators[2]) || (typeis(p.validators[2], "*formatValidator") && ptrof(p.validators[2]) != nil && !redeemed(ptrof(p.validators[2])))) && (isnil(p.validators[3]) || (typeis(p.validators[3], "*numberValidator") && ptrof(p.validators[3]) != nil && !redeemed(ptrof(p.validators[3])))) && (isnil(p.validators[4]) || (typeis(p.validators[4], "*basicSliceValidator") && ptrof(p.validators[4]) != nil && !redeemed(ptrof(p.validators[4])))) && (isnil(p.validators[5]) || (typeis(p.validators[5], "*basicCommonValidator") && ptrof(p.validators[5]) != nil && !redeemed(ptrof(p.validators[5]))))
+//@ foldable readyHV(p *HeaderValidator) = slotsHV(p) && slotsLiveHV(p)
+//@ func newHeaderValidator
+//@   effects validation
+//@   assume_result result == nil || forallp(q, implies(desc(q, result), fromPool(q)))
+//@   requires[C06] header != nil
+//@   ensures[C04,C06] result != nil && !redeemed(result) && fromPool(result) && result.Options != nil
+//@   ensures[C04,C06] readyHV(result)
+//@   ensures[C04] implies(opts != nil, result.Options == opts)
+//@ func (*HeaderValidator).redeemChildren
+//@   effects validation
+//@   requires[C04,C11] slotsNilOrLiveHV(p)
+//@   ensures[C04,C11] !redeemed(p)
+//@   ensures[C04] isnil(p.validators[0]) && isnil(p.validators[1]) && isnil(p.validators[2]) && isnil(p.validators[3]) && isnil(p.validators[4]) && isnil(p.validators[5])
+//@ func (*HeaderValidator).Validate
+//@   effects validation
+//@   maypanic
+//@   requires[C06,C04] readyHV(p)
+//@   ensures[C04,C11] redeemed(p) == old(p.Options.recycleValidators)
+//@   ensures[C04,C06] implies(data != nil, result != nil && okResult(result))
+//@   ensures[C08] implies(!old(p.Options.recycleValidators), unchanged(all(p)))
+//@   on_panic ensures[C11] redeemed(p) == old(p.Options.recycleValidators)
+//@   loop 1 unroll
+//@   loop 1 invariant liveRes(result) && !redeemed(p) && p.Options == old(p.Options) && p.header == old(p.header) && p.name == old(p.name) && p.KnownFormats == old(p.KnownFormats)
+//@   loop 1 invariant forall(k, 0, 6, implies(k > idx1, p.validators[k] == old(p.validators[k]) && !redeemed(ptrof(old(p.validators[k])))))
+//@   loop 1 invariant forall(k, 0, 6, implies(k <= idx1, ite(old(p.Options.recycleValidators), isnil(p.validators[k]), p.validators[k] == old(p.validators[k]))))
+//@   loop 1 invariant implies(!old(p.Options.recycleValidators), unchanged(all(p)))
+//@ pred slotsPV(p *ParamValidator) = typeis(p.validators[0], "*typeValidator") && ptrof(p.validators[0]) != nil && typeis(p.validators[1], "*stringValidator") && ptrof(p.validators[1]) != nil && typeis(p.validators[2], "*formatValidator") && ptrof(p.validators[2]) != nil && typeis(p.validators[3], "*numberValidator") && ptrof(p.validators[3]) != nil && typeis(p.validators[4], "*basicSliceValidator") && ptrof(p.validators[4]) != nil && typeis(p.validators[5], "*basicCommonValidator") && ptrof(p.validators[5]) != nil
+//@ pred slotsLivePV(p *ParamValidator) = !redeemed(ptrof(p.validators[0])) && !redeemed(ptrof(p.validators[1])) && !redeemed(ptrof(p.validators[2])) && !redeemed(ptrof(p.validators[3])) && !redeemed(ptrof(p.validators[4])) && !redeemed(ptrof(p.validators[5]))
+//@ pred slotsNilOrLivePV(p *ParamValidator) = (isnil(p.validators[0]) || (typeis(p.validators[0], "*typeValidator") && ptrof(p.validators[0]) != nil && !redeemed(ptrof(p.validators[0])))) && (isnil(p.validators[1]) || (typeis(p.validators[1], "*stringValidator") && ptrof(p.validators[1]) != nil && !redeemed(ptrof(p.validators[1])))) && (isnil(p.validators[2]) || (typeis(p.validators[2], "*formatValidator") && ptrof(p.validators[2]) != nil && !redeemed(ptrof(p.validators[2])))) && (isnil(p.validators[3]) || (typeis(p.validators[3], "*numberValidator") && ptrof(p.validators[3]) != nil && !redeemed(ptrof(p.validators[3])))) && (isnil(p.validators[4]) || (typeis(p.validators[4], "*basicSliceValidator") && ptrof(p.validators[4]) != nil && !redeemed(ptrof(p.validators[4])))) && (isnil(p.validators[5]) || (typeis(p.validators[5], "*basicCommonValidator") && ptrof(p.validators[5]) != nil && !redeemed(ptrof(p.validators[5]))))
+//@ foldable readyPV(p *ParamValidator) = slotsPV(p) && slotsLivePV(p)
+//@ func newParamValidator
+//@   effects validation
+//@   assume_result result == nil || forallp(q, implies(desc(q, result), fromPool(q)))
+//@   requires[C06] param != nil
+//@   ensures[C04,C06] result != nil && !redeemed(result) && fromPool(result) && result.Options != nil
+//@   ensures[C04,C06] readyPV(result)
+//@   ensures[C04] implies(opts != nil, result.Options == opts)
+//@ func (*ParamValidator).redeemChildren
+//@   effects validation
+//@   requires[C04,C11] slotsNilOrLivePV(p)
+//@   ensures[C04,C11] !redeemed(p)
+//@   ensures[C04] isnil(p.validators[0]) && isnil(p.validators[1]) && isnil(p.validators[2]) && isnil(p.validators[3]) && isnil(p.validators[4]) && isnil(p.validators[5])
+//@ func (*ParamValidator).Validate
+//@   effects validation
+//@   maypanic
+//@   requires[C06,C04] readyPV(p)
+//@   ensures[C04,C11] data == nil || redeemed(p) == old(p.Options.recycleValidators)
+//@   ensures[C04,C06] implies(data != nil, result != nil && okResult(result))
+//@   ensures[C08] implies(!old(p.Options.recycleValidators), unchanged(all(p)))
+//@   on_panic ensures[C11] redeemed(p) == old(p.Options.recycleValidators)
+//@   loop 1 unroll
+//@   loop 1 invariant liveRes(result) && !redeemed(p) && p.Options == old(p.Options) && p.param == old(p.param) && p.KnownFormats == old(p.KnownFormats)
+//@   loop 1 invariant forall(k, 0, 6, implies(k > idx1, p.validators[k] == old(p.validators[k]) && !redeemed(ptrof(old(p.validators[k])))))
+//@   loop 1 invariant forall(k, 0, 6, implies(k <= idx1, ite(old(p.Options.recycleValidators), isnil(p.validators[k]), p.validators[k] == old(p.validators[k]))))
+//@   loop 1 invariant implies(!old(p.Options.recycleValidators), unchanged(all(p)))
+//@ func (*basicSliceValidator).Validate
+//@   effects validation
+//@   maypanic
+//@   requires[C06] data != nil && kind(data) == 23
+//@   ensures[C04,C11] redeemed(s) == old(s.Options.recycleValidators)
+//@   ensures[C04] result == nil || okResult(result)
+//@   ensures[C08] implies(!old(s.Options.recycleValidators), unchanged(all(s)))
+//@   on_panic ensures[C11] redeemed(s) == old(s.Options.recycleValidators)
+//@   loop 1 invariant 0 <= i && i <= int(size) && !redeemed(s) && unchanged(all(s)) && s.Items != nil
 
 // Option values: every option closure of the package writes only the options struct it is given; calls of Option
 // values rely on this (functype contract), and each closure is verified against it.
